@@ -25,6 +25,7 @@ TOKS = WORDS + PUNCT
 # vetted pattern pool: none matches whitespace or the empty string
 PATS = [('[0-9]+', ['1', '23', '7']), ('[x-z]', ['x', 'y', 'z']), ('q(r)s', ['qrs']), ('[a-c]+', ['ab', 'c', 'abc'])]
 NAMES = ['n', 'm']
+EXAMPLES = {}   # pattern -> example strings; checks may register pools for their own patterns
 CONSTS = ['7', 'k', "'s'", '2.5']
 SOUP = TOKS + ['1', '23', 'x', 'y', 'qrs', 'ab', ' ', '  ', '\n']
 
@@ -175,10 +176,12 @@ def derive(rnd, rules, e, depth=6, out=None, marks=None):
     elif k == 'tok':
         out.append(Lex(e[1]))
     elif k == 'pat':
-        ex = next((xs for p, xs in PATS if p == e[1]), None)
+        ex = EXAMPLES.get(e[1]) or next((xs for p, xs in PATS if p == e[1]), None)
         if ex is None:
             ex = [';'] if e[1] == '[;:]' else ['?']
         out.append(Lex(rnd.choice(ex), True, 'pat'))
+    elif k == 'meta':
+        out.append(Lex(rnd.choice(EXAMPLES.get('@' + e[1]) or ['ab', 'c', 'x1']), False, 'tok'))
     elif k == 'dot':
         out.append(Lex(rnd.choice(['a', 'x', '1', ',']), True, 'dot'))
     elif k == 'seq':
